@@ -8,7 +8,7 @@
     configuration, ingress link, request and packet. *)
 From Coq Require Import List NArith Bool Lia.
 From Scion Require Import Lib.Check Lib.Bytes Model.Router Proofs.Router Model.Checksum Proofs.Checksum
-     Model.Spao Model.RouterScmp Proofs.RouterInv Proofs.RouterScmp.
+     Model.Spao Model.RouterScmp Proofs.RouterInv Proofs.RouterScmp Model.RouterTotal Proofs.RouterTotal.
 Import ListNotations.
 Import Router.
 Import RouterScmp.
@@ -232,6 +232,35 @@ Print Assumptions C09_checksum.
 Print Assumptions C09_auth.
 Print Assumptions C09_oracle_holds_on_model.
 Print Assumptions C09_oracle_holds_after_fast_path.
+
+(** Traceroute replies (router alert) are authenticated exactly when authentication is enabled AND the
+    request carried an authenticator the router accepted ([valid_auth] = the outcome of [hasValidAuth]);
+    the authenticator then is the MAC of the documented input of the REPLY, with the same SPI / algorithm
+    as for SCMP errors.  (Observed on the implementation by the runner's auth-traceroute cases: requests
+    with a valid option under the FakeProvider key, a flipped tag, a timestamp outside the acceptance
+    window, and routers without authentication.) *)
+Theorem C09_traceroute_reply_auth : forall macq c ing req eg x va ats r,
+  req = SpAlertIngress \/ req = SpAlertEgress ->
+  slow_path macq c ing req eg x va ats = SReply r ->
+  if c_scmp_auth c && va
+  then exists inp tag, auth_input (r_hdr r) (r_tc r) (r_flow r) ats (r_l4 r) = Some inp /\
+                       macq inp = Some tag /\
+                       r_auth r = Some (mkAuth E2EAuthHdrLen L4SCMP SpiScmp AlgCMAC ats tag)
+  else r_auth r = None.
+Proof.
+  intros macq c ing req eg x va ats r HR H.
+  assert (T : exists ifid ll, traceroute macq c ing x ll ifid va ats = SReply r).
+  { unfold slow_path in H. destruct (_ || _); [discriminate|]. destruct (negb _); [discriminate|].
+    destruct (last_layer _ _) as [ll|]; [|discriminate].
+    destruct HR as [-> | ->]; eauto. }
+  destruct T as (ifid & ll & T). apply traceroute_inv in T as (body & _ & T).
+  apply prepare_inv in T as (rp & T & _).
+  apply build_inv in T as (lt & lraw & ck & _ & _ & _ & _ & _ & HT & HF & _ & _ & _ & HA).
+  destruct (c_scmp_auth c && va).
+  - destruct HA as (_ & inp & tag & A & B & C). exists inp, tag. now rewrite HT, HF.
+  - tauto.
+Qed.
+Print Assumptions C09_traceroute_reply_auth.
 
 (** Known finding (c09-quote-meta-rsv-cleared): the faithful model quotes the packet with the
     reserved bits of its path meta header cleared; an offending packet that carries such bits is
